@@ -126,7 +126,9 @@ StepObs(R, s) ==
       Xs == [k \in 1..Len(pre) |-> Settle(R, pre[k])]
       hit == {k \in 1..Len(pre) : Xs[k].bad = "" /\ Exp(Xs[k]) = o2}
   IN  IF o[5] # Len(fr) \/ f # top.f THEN [s EXCEPT !.drift = Drift(R, i, "shadow_frames", <<top.f, Len(fr)>>, o)]
-      ELSE IF h < Needs(I, T) THEN [s EXCEPT !.drift = Drift(R, i, "needs", <<Needs(I, T)>>, <<h>>)]
+      \* (a Select that has already taken its sources waits with nothing of its own on the stack)
+      ELSE IF h < Needs(I, T) /\ ~(op = "Select" /\ s.sel)
+             THEN [s EXCEPT !.drift = Drift(R, i, "needs", <<Needs(I, T)>>, <<h>>)]
       ELSE IF ~LocalsOK(I, l) THEN [s EXCEPT !.drift = Drift(R, i, "locals", <<A(I)>>, <<l>>)]
       ELSE IF hit = {}
              THEN [s EXCEPT !.drift = Drift(R, i, IF Xs[1].bad # "" THEN Xs[1].bad ELSE "effect",
